@@ -6,7 +6,7 @@ from gen import problems
 
 RULE = ("correspondence: optimize() (after an unrecorded resolve_constraints()) on 8-40 nt problems and direct "
         "optimize_by_exhaustive_search / optimize_by_random_mutations on enumerable problems, built-in constraints and "
-        "objectives with boosts in {0,0.5,1,2,3}, all solver settings; recorded and replayed by the Lean solver model; "
+        "objectives with boosts in {0,0.5,1,2,3}, plus a targeted family (stop-codon-free regions on either strand against A/T-pulling objectives), all solver settings; recorded and replayed by the Lean solver model; "
         "non-trivial = at least 3 assignments; oracle: all_constraints_pass(autopass=False) before and after on the real object")
 TRUSTED = ["harness recorder/replay", "oracle in harness/props/C02.py"]
 ASSUMPTIONS = ["built-in specifications only (user-defined ones with wrong localization are outside this property)",
@@ -20,8 +20,27 @@ def strip_user(d):
     return d
 
 
+def stop_vs_objective(rng):
+    """a region that must stay free of stop codons (either strand, not protected by EnforceTranslation, so local regions
+    cut codons anywhere) against objectives that pull towards A/T-rich or prescribed bases"""
+    from gen import hard
+    n = rng.randint(9, 30)
+    seq = "".join(rng.choice("ATGC" if rng.random() < 0.5 else "GC") for _ in range(n))
+    m = rng.randint(1, n // 3)
+    a = rng.randint(0, n - 3 * m)
+    cons = [dict(kind="stop", location=[a, a + 3 * m, rng.choice([1, -1, -1])], table=rng.choice(["Standard", "Bacterial"]))]
+    w = min(rng.choice([3, 4, 5, 8]), n)
+    objs = [dict(kind="gc_obj", target=rng.choice([0.0, 0.1, 0.25]), window=w, boost=rng.choice([1, 2]))]
+    if rng.random() < 0.4:
+        objs.append(dict(kind="change_obj", location=None, amount_percent=None, boost=rng.choice([0.5, 1])))
+    return dict(sequence=seq, constraints=cons, objectives=objs, settings=problems.rand_settings(rng), np_seed=rng.randint(0, 10 ** 6))
+
+
 def gen_cases(rng, n):
     for i in range(n):
+        if i % 5 == 4:
+            yield dict(desc=stop_vs_objective(rng), op="optimize", pre_ops=("resolve",))
+            continue
         r = i % 4
         if r < 2:
             yield dict(desc=strip_user(problems.rand_solver_problem(rng, soft=BUILTIN_SOFT)), op="optimize", pre_ops=("resolve",))
